@@ -35,13 +35,13 @@ Definition impl_after (I : Ps2Impl) (acc : fstate) : outcome (ps_st I) :=
   end.
 
 Notation closed_C06 I :=
-  (closedb (ps2_machine I) frame_machine (ps_eqb I) psres_eqb all_ops fvalid (lists_upto 10) (impl_after I)).
+  (closedb (ps2_machine I) frame_machine (ps_eqb I) psres_eqb all_ops fvalid (lists_upto 10) (impl_after I) (fun _ _ => false)).
 
 Notation open_C06 I :=
-  (open_cells (ps2_machine I) frame_machine (ps_eqb I) psres_eqb all_ops fvalid (lists_upto 10) (impl_after I)).
+  (open_cells (ps2_machine I) frame_machine (ps_eqb I) psres_eqb all_ops fvalid (lists_upto 10) (impl_after I) (fun _ _ => false)).
 
 Notation explain_C06 I :=
-  (explain_cell (ps2_machine I) frame_machine (ps_eqb I) psres_eqb all_ops (impl_after I) 14).
+  (explain_cell (ps2_machine I) frame_machine (ps_eqb I) psres_eqb all_ops (impl_after I) (fun _ _ => false) 14).
 
 Theorem C06_sound (I : Ps2Impl) (s0 : ps_st I) :
   ps_init I = Ret s0 ->
@@ -51,7 +51,7 @@ Theorem C06_sound (I : Ps2Impl) (s0 : ps_st I) :
 Proof.
   intros Hi Hc ops.
   apply (@bisim_outs _ _ (ps2_machine I) frame_machine (ps_eqb I) (ps_eqb_ok I) psres_eqb psres_eqb_ok all_ops fvalid (lists_upto 10)
-           (fun s H => lists_upto_complete 10 s (proj1 (Nat.leb_le _ _) H)) (impl_after I) Hc).
+           (fun s H => lists_upto_complete 10 s (proj1 (Nat.leb_le _ _) H)) (impl_after I) (fun _ _ => false) (fun _ _ => eq_refl) Hc).
   - apply Forall_forall. intros op _. apply all_ops_complete.
   - reflexivity.
   - unfold impl_after. rewrite Hi. reflexivity.
